@@ -409,6 +409,20 @@ def o_sock_conserve(out, a, ctx):
     return None
 
 
+def o_mrepr(out, a, ctx):
+    """eval(repr(m)) rebuilds a message with the same payload (when the message could be constructed)"""
+    if out.startswith("lib:"):
+        return None
+    if " || " not in out:
+        return "unexpected repr output " + out[:60]
+    rp, back = out.rsplit(" || ", 1)
+    if back != a["payload"]:
+        return "eval(repr(m)).payload is %s, expected the message's payload" % back[:60]
+    if not (rp.startswith("RTCMMessage(payload=b") and rp.endswith(")")):
+        return "repr is not RTCMMessage(payload=b...): " + rp[:60]
+    return None
+
+
 def o_same_as(out, a, ctx):
     other = impl.eval_guarded(a["other_line"], a.get("other_extra"))
     fa = [x for x in out.split() if x.startswith("F:")]
@@ -459,7 +473,7 @@ def o_sibling(out, a, ctx):
 ORACLES = {f.__name__[2:]: f for f in [o_sibling, 
     o_attrs_expected, o_total, o_c01, o_frames_expected, o_rejected, o_equals, o_serialize, o_parse_ser,
     o_crc, o_parse_err, o_msm_labels, o_immutable, o_identity, o_label_only, o_helpers, o_names,
-    o_sock_conserve, o_same_as, o_parse_same]}
+    o_sock_conserve, o_same_as, o_parse_same, o_mrepr]}
 
 
 def case(line, klass, oracle=None, extra=None, **meta):
@@ -946,6 +960,24 @@ def cases_C07(ctx):
         cs.append(case("msg %d %s" % (lab, hx(p)), "ser:len%d" % min(len(p) // 128, 8), ("serialize", {"payload": hx(p), "label": str(lab)})))
         f = frame(p)
         cs.append(case("parse 1 %d %s" % (lab, hx(f)), "parse:len%d" % min(len(p) // 128, 8), ("parse_ser", {"frame": hx(f)})))
+    # repr / eval(repr): the model of bytes.__repr__ and of the literal reader against CPython
+    singles = [bytes([b]) for b in range(256)]
+    quotes = [b"'", b'"', b"'\"", b"\\", b"\\'", b"a'b\"c", b"\\x41", b"\r\n\t", b"'" * 3, b'"' * 2 + b"\\", b""]
+    rnd = [bytes(rng.choice([39, 34, 92, 9, 10, 13, 0, 127, 128, 255, 32, 65, 120, rng.randrange(256)]) for _ in range(rng.randint(1, 24)))
+           for _ in range(ctx.n(150, 3000))]
+    for b in singles + quotes + rnd:
+        tok = hx(b) or "-"
+        kl = "quotes" if (39 in b or 34 in b) else ("esc" if any(c < 32 or c >= 127 or c == 92 for c in b) else "plain")
+        cs.append(case("brepr " + tok, "brepr:" + kl, ("equals", {"expected": repr(b)})))
+        cs.append(case("beval " + tok, "beval:" + kl, ("equals", {"expected": "ok " + hx(b)})))
+    for p in pls[:ctx.n(120, 1500)]:
+        # make the payload body rich in quotes / escapes while keeping its message number
+        q = bytearray(p)
+        for _i in range(rng.randint(0, 6)):
+            if len(q) > 3:
+                q[rng.randrange(3, len(q))] = rng.choice([39, 34, 92, 10, 13, 9, 0, 255])
+        lab = rng.choice([1, 2])
+        cs.append(case("mrepr %d %s" % (lab, hx(bytes(q))), "mrepr", ("mrepr", {"payload": hx(bytes(q))})))
     return cs
 
 
